@@ -26,6 +26,26 @@ CHECKS = {
         tech="bounded exhaustive enumeration of trees x renderings, reference tokenizer as oracle",
         sec="C02",
     ),
+    "C09": dict(
+        cat="exploration",
+        text="Every OFX date-time/time notation x every UTC offset -12:00..+14:00 in whole minutes (1561) in every spelling x boundary "
+        "dates/times/milliseconds x zone names is read by the library and compared with an integer-arithmetic reference instant; every "
+        "single-field corruption of valid texts must be rejected; every fixed-offset zone x sub-millisecond parts x boundary dates is written, "
+        "checked lexically, for the rounded instant, and re-read. The offset and spelling spaces are covered completely.",
+        note="Dates 1900-2200 boundary set, not every calendar day; second 60 and non-'.' offset separators unspecified; reference arithmetic trusted (self-checked).",
+        tech="bounded exhaustive enumeration of notations x offsets x boundary values against an integer-arithmetic reference model",
+        sec="C09",
+    ),
+    "C20": dict(
+        cat="exploration",
+        text="Digit sub-spaces enumerated completely (quick: 4x10^6 CUSIP bases, 10^6 SEDOL, every agency prefix x 10^3..10^5 ISIN endings; "
+        "thorough: all 10^8 CUSIP digit bases, every prefix x 10^5), plus every base within <=2 positions of seed-chosen bases over the full "
+        "alphabets (incl. * @ #); each compared with reference check-digit algorithms; completed ids must validate, every other check "
+        "character must not, conversions must embed the original.",
+        note="Alphanumeric spaces beyond 2-position variations are not covered; reference algorithms trusted (self-checked on published identifiers).",
+        tech="exhaustive enumeration of digit sub-spaces and 2-position neighbourhoods against reference algorithms",
+        sec="C20",
+    ),
 }
 
 NA_REASON = "check not built yet in this revision of /verif (planned: see DESIGN.md section 3); nothing is claimed for it"
